@@ -43,7 +43,9 @@ func (multi *MultiEpoch) apiHandler(reqCtx *fasthttp.RequestCtx) {
 			return
 		}
 
-		blockCid, err := epochHandler.FindCidFromSlot(context.TODO(), slot)
+		// The slot-to-cid index stores no keys (a skipped slot can be answered with the entry of
+		// another slot): GetBlock compares the slot of the block it found with the requested one.
+		_, blockCid, err := epochHandler.GetBlock(context.TODO(), slot)
 		if err != nil {
 			if errors.Is(err, compactindexsized.ErrNotFound) {
 				reqCtx.SetStatusCode(fasthttp.StatusNotFound)
@@ -81,7 +83,8 @@ func (multi *MultiEpoch) apiHandler(reqCtx *fasthttp.RequestCtx) {
 			return
 		}
 
-		transactionCid, err := epochHandler.FindCidFromSignature(context.TODO(), sig)
+		// Same for the sig-to-cid index: GetTransaction compares the signature.
+		_, transactionCid, err := epochHandler.GetTransaction(context.TODO(), sig)
 		if err != nil {
 			if errors.Is(err, compactindexsized.ErrNotFound) {
 				reqCtx.SetStatusCode(fasthttp.StatusNotFound)
